@@ -30,7 +30,8 @@ PROPS = {
         "assumptions": ["all SubRule methods are invoked on the same SubRule object (cells named by field)"],
     },
     "C05": {
-        "rules": [("SUP-1", sup.sup1), ("SUP-2", sup.sup2), ("SUP-4", sup.sup4), ("SUP-5", sup.sup5), ("SUP-7", r5.sup7), ("SHR-5", r5.shr5), ("TAB-8", r5.tab8), ("SUP-8", r5.sup8), ("SUP-9", r5.sup9)],
+        "controls": ["SUP-10"],
+        "rules": [("SUP-1", sup.sup1), ("SUP-2", sup.sup2), ("SUP-4", sup.sup4), ("SUP-5", sup.sup5), ("SUP-7", r5.sup7), ("SHR-5", r5.shr5), ("TAB-8", r5.tab8), ("SUP-8", r5.sup8), ("SUP-9", r5.sup9), ("SUP-10", r5.sup10), ("SUP-11", r5.sup11)],
         "explanation": "Decides the table clauses of C05 by decision-table extraction: the matchers and setters of stress / sec.stress / long / overlong are small decision "
                        "trees over two finite domains (stress in {unstressed, primary, secondary}; length in {short, long, overlong}); the trees are read off the HIR (comparison "
                        "operators and constants, `while seg_len < N` / `> N` clamps, constants assigned to `.stress`, the true/false and Positive/Negative arms) and tabulated. "
